@@ -92,7 +92,11 @@ CLASSES = [
       ('fit', {})], ['MonteCarloGFormula']),
     ('iterCond', 'IterativeCondGFormula', 'zepid/causal/gformula/TimeVary.py',
      [('outcome_model', {}), ('fit', {})], ['IterativeCondGFormula']),
-]
+] + [
+    (d, c, 'zepid/causal/doublyrobust/crossfit.py',
+     [('exposure_model', {}), ('outcome_model', {}), ('fit', {}), ('summary', {})], [c])
+    for d, c in (('xfSingleAiptw', 'SingleCrossfitAIPTW'), ('xfDoubleAiptw', 'DoubleCrossfitAIPTW'),
+                 ('xfSingleTmle', 'SingleCrossfitTMLE'), ('xfDoubleTmle', 'DoubleCrossfitTMLE'))]
 
 # constructor-constant attribute that becomes a parameter of the table (the data set has missing outcomes)
 PARAM_ATTR = {'_miss_flag': 'miss'}
@@ -117,18 +121,13 @@ IMPLICIT = {
     ('IPTW', 'plot_love'): [('iptw', 'ipmw'), ('ipmw', 'iptw'), ('__mdenom', None)],
     ('IPTW', 'plot_kde'): [('df[__denom__]', None)],
     ('IPTW', 'plot_boxplot'): [('df[__denom__]', None)],
-    ('AIPTW', 'summary'): [('risk_difference', None), ('average_treatment_effect', None)],
     ('AIPTW', 'positivity'): [('df[_g1_]', None)],
     ('AIPTW', 'standardized_mean_differences'): [('df[_g1_]', None)],
     ('AIPTW', 'plot_love'): [('df[_g1_]', None)],
     ('AIPTW', 'plot_kde'): [('df[_g1_]', None), ('_predicted_y_', None)],
-    ('TMLE', 'summary'): [('risk_difference', None), ('average_treatment_effect', None)],
     ('TMLE', 'positivity'): [('g1W', None)],
     ('TMLE', 'standardized_mean_differences'): [('g1W', None)],
     ('GEstimationSNM', 'summary'): [('psi_labels', None)],
-    ('IPSW', 'summary'): [('risk_difference', None)],
-    ('GTransportFormula', 'summary'): [('risk_difference', None)],
-    ('AIPSW', 'summary'): [('risk_difference', None)],
     ('IPCW', 'fit'): [('df[__cnumer__]', None)],
 }
 
@@ -506,6 +505,11 @@ class Walker:
                     st.AV[recv[1]] = FRESH
                 else:
                     self.mutate(st, recv, what, node)
+        if fname in ('float', 'int') and len(node.args) == 1 and self.is_self_attr(node.args[0]) and \
+                node.args[0].attr not in st.W:
+            # float(None) / int(None) raise TypeError: a certain failure while the attribute is still None (checked
+            # against the constructor's constant when the attribute is mapped to its owner)
+            st.F = st.F | {'?' + node.args[0].attr}
         if any(av[0] == 'self' for av in args + list(kwargs.values())):
             self.fail('self handed to %s(...): what the callee does to the object is outside the analysis' % fname, node)
         if fname in MUT_FUNCS and args:
@@ -1258,7 +1262,10 @@ def analyse_class(text, clsname, methods):
         if v['finals']:
             per_path = []
             for f in v['finals']:
-                per_path.append({owner_req(a, 'implicit failure') for a in f.F})
+                fa = {a for a in f.F if not a.startswith('?')}
+                fa |= {a[1:] for a in f.F if a.startswith('?') and a[1:] in init_val and init_val[a[1:]][1] is None
+                       and a[1:] in owners}
+                per_path.append({owner_req(a, 'implicit failure') for a in fa})
             common = set.intersection(*per_path) if per_path else set()
             for kind, k in common:
                 if kind == 'fit':
